@@ -147,6 +147,7 @@ class World:
         "reject-then-check", "accept-mutation", "slice-assign", "list-assign", "neg-index", "sym-assign",
         "bind-total", "bind-partial", "bind-reject", "bind-self-alias", "dicke", "dicke-invalid", "flip-cold", "flip-warm",
         "save-load-ok", "ctor-reject", "ctor-accept-sym", "grey-band", "torn-file-load", "type-invalid",
+        "mask-assign", "drift-step", "value-kind-mismatch",
     ]
 
     # ------------------------------------------------------------ generation
@@ -160,6 +161,9 @@ class World:
             "fs_buffer": r.choice(BUFFER_SIZES),
             "faults": r.choice(["low", "medium"]) if faulty else "none",
             "cache_clear": r.choice([0.0, 0.1, 0.5]),
+            # some runs push one object's total weight in ONE direction by many small steps, each well inside the
+            # library's tolerance: the invariant must not erode ("after ANY sequence of assignments")
+            "drift": r.choice([0, 0, 0, 1, -1]),
         }
         n_steps = r.randint(5, 60 if tier == "quick" else 100)
         weights = {
@@ -234,8 +238,14 @@ class World:
 
     def _gen_setitem(self, r, cfg):
         dim = 2 ** cfg["n"]
-        ik = r.choices(["int", "neg", "slice", "list", "oob"], [5, 2, 3, 2, 0.5])[0]
-        if ik == "int":
+        if cfg.get("drift") and r.random() < 0.6:
+            return {"op": "setitem", "args": {"w": 0, "idx": {"int": r.randrange(dim)},
+                                              "val": {"mode": "drift", "d": cfg["drift"] * r.uniform(3e-6, 9e-6)}}}
+        ik = r.choices(["int", "neg", "slice", "list", "oob", "mask"], [5, 2, 3, 2, 0.5, 1])[0]
+        if ik == "mask":
+            bits = [r.random() < 0.4 for _ in range(dim)]
+            idx = {"mask": bits}
+        elif ik == "int":
             idx = {"int": r.randrange(dim)}
         elif ik == "neg":
             idx = {"int": -r.randint(1, dim)}
@@ -247,6 +257,8 @@ class World:
             idx = {"slice": [a, b, r.choice([None, None, 1, 2])]}
             if r.random() < 0.2:
                 idx = {"slice": [None, None, None]}
+            elif r.random() < 0.15:
+                idx = {"slice": [r.choice([None, dim - 1, b]), r.choice([None, a]), r.choice([-1, -2])]}
         else:
             k = r.randint(1, min(dim, 3))
             idx = {"list": r.sample(range(dim), k)}
@@ -266,6 +278,11 @@ class World:
             # set selected entries so that total numeric mass becomes exactly `target`
             val["target"] = r.choice([1.0, 1.0, 1.0, 0.5, 0.999999, 1.2])
             val["phis"] = [r.uniform(-math.pi, math.pi) for _ in range(4)]
+        if "int" in idx and r.random() < 0.1:
+            # a container where a scalar is expected: numpy refuses or broadcasts, a sympy Matrix copies SEVERAL
+            # entries in starting at the index; whatever happens, a raised error must leave the object untouched
+            val["as"] = r.choice(["list1", "list2", "list3", "arr2", "mat2"])
+            val["extra"] = [[r.uniform(-1, 1), r.uniform(-1, 1)] for _ in range(2)]
         return {"op": "setitem", "args": {"w": r.randrange(64), "idx": idx, "val": val}}
 
     def _gen_bind(self, r, cfg):
@@ -509,6 +526,9 @@ class World:
         if "slice" in idx:
             s = slice(*idx["slice"])
             return s, list(range(dim))[s]
+        if "mask" in idx:
+            bits = (list(idx["mask"]) + [False] * dim)[:dim]
+            return np.array(bits, dtype=bool), [i for i, b in enumerate(bits) if b]
         lst = [i % dim for i in idx["list"]]
         # keep distinct
         seen = []
@@ -533,7 +553,10 @@ class World:
             ctx.probe("list-assign")
         if "int" in a["idx"] and a["idx"]["int"] < 0:
             ctx.probe("neg-index")
+        if "mask" in a["idx"]:
+            ctx.probe("mask-assign")
         before = snap(obj)
+        kind_mismatch = False
         # ---- compute the value(s) from the recipe and the model state
         type_invalid = False
         if positions is None:
@@ -546,6 +569,16 @@ class World:
                 newvals = [o * f if _is_num(o) and not m.symbolic else (sympy.sympify(o) * sympy.sympify(f) if m.symbolic else o * f) for o in olds]
             elif mode in ("scale", "grey"):
                 newvals = [(complex(o) * val["s"]) if not m.symbolic else sympy.sympify(o) * val["s"] for o in olds]
+            elif mode == "drift":
+                # raise/lower the total weight by d through one entry (phase kept); needs a numeric entry
+                o = olds[0]
+                if _is_num(o) and not m.symbolic:
+                    o = complex(o)
+                    w2 = abs(o) ** 2 + val["d"]
+                    newvals = [(o / abs(o)) * math.sqrt(w2) if abs(o) > 0 and w2 > 0 else complex(math.sqrt(max(w2, 0.0)))]
+                    ctx.probe("drift-step")
+                else:
+                    newvals = [o]
             elif mode == "perm":
                 newvals = olds[1:] + olds[:1]
             elif mode == "raw":
@@ -574,7 +607,14 @@ class World:
                     type_invalid = True
                 else:
                     newvals = [complex(v) for v in newvals]
-            if "int" in a["idx"]:
+            if "int" in a["idx"] and "as" in val and not type_invalid:
+                more = [_c(x) for x in val["extra"]]
+                seq = [newvals[0]] + ([] if val["as"] == "list1" else more[:1] if val["as"].endswith("2") else more)
+                arg = {"l": list, "a": lambda q: np.array([complex(x) for x in q]) if not m.symbolic else list(q),
+                       "m": lambda q: sympy.Matrix(q)}[val["as"][0]](seq)
+                type_invalid = kind_mismatch = True
+                ctx.probe("value-kind-mismatch")
+            elif "int" in a["idx"]:
                 arg = newvals[0]
             else:
                 arg = list(newvals) if ctx.rng(step).random() < 0.5 or m.symbolic or type_invalid else np.array(newvals, dtype=complex)
@@ -584,6 +624,22 @@ class World:
         ok, res = call(obj.__setitem__, key, arg)
         ctx.called("Wavefunction.__setitem__")
         after = snap(obj)
+        if type_invalid and kind_mismatch:
+            # the library decides what such an assignment means; the property only demands that a raised error leaves
+            # the object exactly as it was, and that an accepted one leaves a valid object (checked by the invariant
+            # on the actual content after adopting it)
+            if not ok and after != before:
+                ctx.fail("rollback", "value-kind-mismatch-changed-object",
+                         f"assignment w[{a['idx']['int']}] = {arg!r} raised {type(res).__name__} ({res}) but the object changed: "
+                         f"{show(before)} -> {show(after)}")
+            if ok and after != before:
+                v = obj._amplitude_vector
+                if isinstance(v, np.ndarray):
+                    m.entries[:] = [complex(x) for x in v.reshape(-1)]
+                else:
+                    m.entries[:] = list(v)
+            ctx.log("setitem", "kind-mismatch", ok=ok, exc=None if ok else type(res).__name__)
+            return
         if type_invalid:
             ctx.probe("type-invalid")
             # must leave the object either untouched or consistently updated; verified by the invariant.
@@ -613,7 +669,7 @@ class World:
             ctx.log("setitem", "accepted", idx=a["idx"], mode=mode)
         else:
             if after != before:
-                kind = "slice" if "slice" in a["idx"] else ("list" if "list" in a["idx"] else "int")
+                kind = "slice" if "slice" in a["idx"] else ("list" if "list" in a["idx"] else ("mask" if "mask" in a["idx"] else "int"))
                 ctx.fail("rollback", f"setitem-{kind}-{'sym' if m.symbolic else 'num'}",
                          f"rejected assignment ({type(res).__name__}) left the object changed: {show(before)} -> {show(after)}")
             ctx.check(pred != "accept", "unexpected-reject", "setitem",
